@@ -23,6 +23,7 @@ RULE = (
     "transformation is documented (rule attributes are compared directly); identity instances must leave every query "
     "byte-identical. non-trivial = case in which the transformation changes the reference formula or attributes."
 )
+RULE += (" " + 'Every case is repeated on a backend/pipeline that converted another rule (other log source) before, and once more after the same rule (differential: same queries and rule attributes as the fresh conversion). add_condition is chained with every field/value transformation (the added condition is a detection of the rule for later items).')
 ASSUMPTIONS = ["reference rewrite of each transformation in this module (item-level model, independent of sigma)", "decoder mc/qparse.py, backend K0",
                "regex transformation and external placeholder sources are judged by C05 / C16, here only their identity instances"]
 K = V.K()
